@@ -74,6 +74,7 @@ from happysimulator.components.messaging.dlq import DeadLetterQueue  # noqa: E40
 PROPERTY = {
     "id": "C19",
     "level": "proof",
+    "task_timeout": 900,      # generous: the whole check takes ~1 min on an idle 16-core box, far more under contention
     "trusted": ["heap typing of the fields declared in specs/C19.py and specs/common.py",
                 "uuid.uuid4(): message ids are opaque strings, fresh w.r.t. every id the queue has issued before "
                 "(ghost set g_issued) - DESIGN 3-C19 'reach'",
@@ -824,8 +825,7 @@ def _nothing_acked_is_delivered(s, y):
 fn(MessageQueue, "handle_event", args={"event": Ref(Event)},
    yields=Yields(at_yield=[
        ("only-live-unacknowledged-messages-are-delivered", _nothing_acked_is_delivered),
-       ("at-most-one-message-per-event", _poll_one),
-       ("in-flight-at-a-subscribed-consumer-live-unacknowledged", _poll_decided)]),
+       ("at-most-one-message-per-event", _poll_one)]),
    ensures=[
     ("at-most-one-delivery-stamped-now", _handle_result_shape),
     ("other-events-ignored", lambda s: implies(
